@@ -84,6 +84,13 @@ func build(extraFile, extraCat string) *model {
 	c.Add(&idl.Typedef{Name: "CTdUnusedAlias", Type: idl.ListOf(idl.StructT(cTdOnly))})
 	cConstT := st(m, c, "struct", "CConstT", fld(1, "v", i32))
 	c.Add(&idl.Const{Name: "CK", Type: idl.StructT(cConstT), Value: idl.VM([2]*idl.Value{idl.VS("v"), idl.VI(1)})})
+	// constants of container type whose element structs are reachable in no other way
+	cConstElem := st(m, c, "struct", "CConstElem", fld(1, "v", i32))
+	c.Add(&idl.Const{Name: "CKL", Type: idl.ListOf(idl.StructT(cConstElem)), Value: idl.VL(idl.VM([2]*idl.Value{idl.VS("v"), idl.VI(1)}))})
+	cConstMapVal := st(m, c, "struct", "CConstMapVal", fld(1, "v", i32))
+	c.Add(&idl.Const{Name: "CKM", Type: idl.MapOf(str, idl.SetOf(idl.StructT(cConstMapVal))), Value: idl.VM()})
+	dConstElem := st(m, d, "struct", "DConstElem", fld(1, "v", i32))
+	c.Add(&idl.Const{Name: "CKD", Type: idl.ListOf(idl.StructT(dConstElem)), Value: idl.VL()})
 	cUnusedA := st(m, c, "struct", "CUnusedA", fld(1, "v", i32))
 	st(m, c, "struct", "CUnusedB", fld(1, "a", idl.StructT(cUnusedA)))
 	st(m, c, "union", "CUnusedU", fld(1, "v", i32))
@@ -109,7 +116,16 @@ func build(extraFile, extraCat string) *model {
 	bTd := &idl.Typedef{Name: "BTd", Type: idl.TypedefT(cTd)}
 	b.Add(bTd)
 
-	mainf := &idl.File{Path: "main.thrift", Includes: []*idl.Include{{Path: "b.thrift", File: b}, {Path: "c.thrift", File: c}}, Namespaces: []*idl.Namespace{{Lang: "go", Name: "t.mpk"}}}
+	// main -> via -> deep: "via" keeps nothing of its own, "deep" holds only things that are always kept
+	deep := &idl.File{Path: "deep.thrift", Namespaces: []*idl.Namespace{{Lang: "go", Name: "t.deeppk"}}}
+	deep.Add(&idl.Enum{Name: "DeepE", Values: []*idl.EnumValue{{Name: "A"}}})
+	deep.Add(&idl.Const{Name: "DEEP_K", Type: i32, Value: idl.VI(1)})
+	deepPres := st(m, deep, "struct", "DeepPreserved", fld(1, "v", i32))
+	m.comment[deepPres] = "// @preserve"
+	st(m, deep, "struct", "DeepUnused", fld(1, "v", i32))
+	via := &idl.File{Path: "via.thrift", Includes: []*idl.Include{{Path: "deep.thrift", File: deep}}, Namespaces: []*idl.Namespace{{Lang: "go", Name: "t.viapk"}}}
+	st(m, via, "struct", "ViaUnused", fld(1, "v", i32))
+	mainf := &idl.File{Path: "main.thrift", Includes: []*idl.Include{{Path: "b.thrift", File: b}, {Path: "c.thrift", File: c}, {Path: "via.thrift", File: via}}, Namespaces: []*idl.Namespace{{Lang: "go", Name: "t.mpk"}}}
 	mNested := st(m, mainf, "struct", "MNested", fld(1, "v", i32))
 	mArg := st(m, mainf, "struct", "MArg", fld(1, "n", idl.StructT(mNested)), fld(2, "bt", idl.TypedefT(bTd)))
 	mErr := st(m, mainf, "exception", "MErr", fld(1, "m", str))
@@ -126,7 +142,7 @@ func build(extraFile, extraCat string) *model {
 		{Name: "get_more", Ret: i32}}}
 	mainf.Add(mainSvc)
 	m.svcs["Main"] = mainSvc
-	m.files = []*idl.File{mainf, b, c, d}
+	m.files = []*idl.File{mainf, b, c, d, via, deep}
 	m.main = mainf
 	if extraFile != "" {
 		for _, f := range m.files {
